@@ -2588,9 +2588,10 @@ class Composite(ArmiObject):
 
     def remove(self, obj):
         """Remove a particular child."""
+        # first: this raises for an object that is not a child, before anything is changed on it
+        self._children.remove(obj)
         obj.parent = None
         obj.spatialLocator = obj.spatialLocator.detachedCopy()
-        self._children.remove(obj)
 
     def moveTo(self, locator):
         """Move to specific location in parent. Often in a grid."""
